@@ -17,6 +17,7 @@
 """This module contains serialization and deserialization of calibration state with Pandas."""
 from __future__ import annotations
 
+import hashlib
 import json
 import pickle  # nosec B403
 from pathlib import Path
@@ -37,6 +38,23 @@ if TYPE_CHECKING:
     from black_it.schedulers.base import BaseScheduler
 
 
+_CHECKPOINT_DATA_FILES = (
+    "scheduler_pickled.pickle",
+    "loss_function_pickled.pickle",
+    "calibration_results.csv",
+    "series_samp.h5",
+)
+
+
+def _file_digest(path: Path) -> str:
+    """Compute the SHA-256 digest of a file."""
+    digest = hashlib.sha256()
+    with path.open("rb") as fb:
+        for chunk in iter(lambda: fb.read(1 << 20), b""):
+            digest.update(chunk)
+    return digest.hexdigest()
+
+
 def load_calibrator_state(checkpoint_path: PathLike, _code_state_version: int) -> tuple:
     """Load calibrator data from a given folder.
 
@@ -50,6 +68,15 @@ def load_calibrator_state(checkpoint_path: PathLike, _code_state_version: int) -
     checkpoint_path = Path(checkpoint_path)
     with (checkpoint_path / "calibration_params.json").open() as f:
         cp = json.load(f)
+
+    # refuse a checkpoint whose files do not belong together (e.g. a save interrupted half-way)
+    for name, digest in (cp.get("files_digest") or {}).items():
+        if _file_digest(checkpoint_path / name) != digest:
+            msg = (
+                f"the checkpoint in {checkpoint_path} is incomplete or corrupted: "
+                f"'{name}' does not match 'calibration_params.json'"
+            )
+            raise ValueError(msg)
 
     cr = pd.read_csv(
         checkpoint_path / "calibration_results.csv",
@@ -180,9 +207,18 @@ def save_calibrator_state(  # noqa: PLR0913
         "n_jobs": n_jobs,
         "samplers_id_table": samplers_id_table,
     }
-    # save calibration parameters in a json dictionary
-    with (checkpoint_path / "calibration_params.json").open("w") as f:
-        json.dump(calibration_params, f, cls=NumpyArrayEncoder)
+    def save_calibration_params() -> None:
+        """Save the calibration parameters in a json dictionary.
+
+        This file is written last and records the digests of the other files, so that a save that was
+        interrupted half-way is detected (and refused) by 'load_calibrator_state' instead of being
+        restored as a mixture of two checkpoints.
+        """
+        calibration_params["files_digest"] = {
+            name: _file_digest(checkpoint_path / name) for name in _CHECKPOINT_DATA_FILES
+        }
+        with (checkpoint_path / "calibration_params.json").open("w") as f:
+            json.dump(calibration_params, f, cls=NumpyArrayEncoder)
 
     # save instantiated scheduler and loss functions
     with (checkpoint_path / "scheduler_pickled.pickle").open("wb") as fb:
@@ -232,6 +268,7 @@ def save_calibrator_state(  # noqa: PLR0913
                 data[nb_rows:new_num_rows] = to_append
 
         if can_append:
+            save_calibration_params()
             return
 
     # If the file does not exist (or cannot be extended), create it and store the entire dataset in one shot.
@@ -247,4 +284,5 @@ def save_calibrator_state(  # noqa: PLR0913
             dtype="float64",
         )
 
+    save_calibration_params()
     return
